@@ -106,4 +106,34 @@ PROPS = {
         trusted_base=TB_COMMON + ["hook H2 (cargo feature astrolabe_verif): tzif_offsets(bytes, timestamps)"],
         assumptions=ASSUME_COMMON + ["usize is 64 bits (length products cannot overflow)", "the Offset::Local -> /etc/localtime glue is modelled as resolve_local (file result, clock) and exercised in a mount namespace by the thorough tier"],
     ),
+    "C11": dict(
+        cases_mod="CasesText", check_fn="check_C11", shard=200,
+        rule="values (years +-1, +-99, +-100, +-9999, +-10000, 123456; weeks 52/53/1; every weekday/month; hours 0/11/12/13/23; offsets incl. seconds) x patterns generated from the item grammar: every symbol the type understands x widths 1..=10, literal runs (ASCII and multi-byte), quoted text with embedded apostrophes, '' outside quotes; a quarter of the cases are single-field patterns. The harness sends the item list; the oracle re-derives the pattern text (unparse) and the expected output (PatternSpec.render). Non-trivial: every case.",
+        explanation="see props/C11.v for what is proved; figures describe the differential run.",
+        trusted_base=TB_COMMON + ["serde / serde_json (C20) from the offline cargo cache"], assumptions=ASSUME_COMMON + ["the current year read by the two-letter year parser is a parameter (now_year) passed by the harness"],
+    ),
+    "C12": dict(
+        cases_mod="CasesText", check_fn="check_C12", shard=200,
+        rule='values x patterns from the unambiguous-field grammar (at most one field per value kind, one-letter numeric fields and y/yyy/yyyy followed by a non-digit literal or quoted text, no narrow names, period markers with 12-hour fields, zone symbols of every width, quoted separators); observed: format -> parse -> format and the parsed value. Non-trivial: every case.',
+        explanation="see props/C12.v for what is proved; figures describe the differential run.",
+        trusted_base=TB_COMMON + ["serde / serde_json (C20) from the offline cargo cache"], assumptions=ASSUME_COMMON + ["the current year read by the two-letter year parser is a parameter (now_year) passed by the harness"],
+    ),
+    "C13": dict(
+        cases_mod="CasesText", check_fn="check_C13", shard=200,
+        rule='write side: instants in years 1..=9999 x whole-minute offsets (0, +-1 min, +-23:59, random) x 5 precisions; read side: strings from the RFC 3339 ABNF with 1..40 fraction digits, Z or +-hh:mm, one third with a single field pushed out of range (month 00/13, day 00/30/31/32 incl. 29 Feb, hour 24, minute 60, second 60, offset 24:00 / 00:60, year 0000), plus hand-written malformed strings incl. multi-byte characters. Non-trivial: every case.',
+        explanation="see props/C13.v for what is proved; figures describe the differential run.",
+        trusted_base=TB_COMMON + ["serde / serde_json (C20) from the offline cargo cache"], assumptions=ASSUME_COMMON + ["the current year read by the two-letter year parser is a parameter (now_year) passed by the harness"],
+    ),
+    "C14": dict(
+        cases_mod="CasesText", check_fn="check_C14", shard=200,
+        rule="(input, pattern) pairs: a seed-determined slice of the exhaustive product {19 symbols} x {width 1..5} x {all strings up to length 2 (thorough: 3) over 0 1 9 + - : . Z T a p m ' space e-acute euro emoji} x {Date, Time, DateTime}; composite patterns from the item grammar with single-edit mutations (deleted/inserted quotes, NUL, multi-byte), inputs produced by formatting then truncated / extended / damaged; format with every hostile pattern incl. lone and unbalanced apostrophes; parse_rfc3339, FromStr of all three types and CronSchedule::from_str on small and damaged strings. Dev profile = overflow checks on. Non-trivial: every case.",
+        explanation="see props/C14.v for what is proved; figures describe the differential run.",
+        trusted_base=TB_COMMON + ["serde / serde_json (C20) from the offline cargo cache"], assumptions=ASSUME_COMMON + ["the current year read by the two-letter year parser is a parameter (now_year) passed by the harness"],
+    ),
+    "C20": dict(
+        cases_mod="CasesText", check_fn="check_C20", shard=200,
+        rule='Display of Dates/Times/DateTimes (all eras, offsets); serde_json round trips of Dates (all eras incl. years beyond 9999 and negative), Times with offsets (thorough: all 86400 seconds), DateTimes in years 1..9999 x whole-minute offsets; FromStr and Deserialize on hand-written valid, out-of-range and malformed strings. Non-trivial: every case.',
+        explanation="see props/C20.v for what is proved; figures describe the differential run.",
+        trusted_base=TB_COMMON + ["serde / serde_json (C20) from the offline cargo cache"], assumptions=ASSUME_COMMON + ["the current year read by the two-letter year parser is a parameter (now_year) passed by the harness"],
+    ),
 }
